@@ -237,6 +237,7 @@ def remove_SplitSliceRead(op, arch):
             and consumer.run_on_npu
             and consumer.type not in memory_only_ops
             and consumer.type != Op.Mul
+            and consumer.type != Op.Memcpy
             and consumer.original_type != Op.Transpose
             and reads_slice_with_its_own_shape(consumer)
             for consumer in op.ofm.consumer_list
